@@ -29,15 +29,19 @@ func uniformPoint(seed uint64) pt {
 	}
 }
 
-// drawPoint returns a point, its display name and its class label.
+// drawPoint returns a point, its display name and its class label. The class
+// is drawn first (uniform points get three shares), then an entry of it, so
+// that small classes of the catalogue are not starved.
 func drawPoint(t *rapid.T, label string) (pt, string, string) {
 	buildCatalogue()
-	if rapid.IntRange(0, 9).Draw(t, label+"Kind") < 6 {
-		e := catalogue[rapid.IntRange(0, len(catalogue)-1).Draw(t, label+"Cat")]
-		return e.P, e.Name, e.Class
+	k := rapid.IntRange(0, len(catClasses)+2).Draw(t, label+"Class")
+	if k >= len(catClasses) {
+		seed := rapid.Uint64().Draw(t, label+"Seed")
+		return uniformPoint(seed), fmt.Sprintf("uniform(%d)", seed), "pt-uniform"
 	}
-	seed := rapid.Uint64().Draw(t, label+"Seed")
-	return uniformPoint(seed), fmt.Sprintf("uniform(%d)", seed), "pt-uniform"
+	idx := catByClass[catClasses[k]]
+	e := catalogue[idx[rapid.IntRange(0, len(idx)-1).Draw(t, label+"Cat")]]
+	return e.P, e.Name, e.Class
 }
 
 // ---------------------------------------------------------------- Add / Double
